@@ -384,6 +384,10 @@ def run_case(case, wd: Path, chooser_factory):
         try:
             # ---- unlock (1 download) then snapshot
             repo = Repository(backend, concurrent=N, quiet=True, cache_directory=None)
+            obs['slot_traces'] = []
+            tr1 = []
+            obs['slot_traces'].append(tr1)
+            log_slots(repo, N, tr1)
             t = asyncio.ensure_future(repo.unlock(password=password, key=init.key))
             await asyncio.wait_for(drive(gate, t, chooser), 60)
             await t
@@ -422,6 +426,9 @@ def run_case(case, wd: Path, chooser_factory):
             gate.entered = 0
             gate.fail_at = case['fail_at'] if case['fail_phase'] == 'restore' else None
             repo2 = Repository(backend, concurrent=N, quiet=True, cache_directory=None)
+            tr2 = []
+            obs['slot_traces'].append(tr2)
+            log_slots(repo2, N, tr2)
             gate.fail_at, keep = None, gate.fail_at
             t = asyncio.ensure_future(repo2.unlock(password=password, key=init.key))
             await asyncio.wait_for(drive(gate, t, chooser), 60)
@@ -471,6 +478,26 @@ def run_case(case, wd: Path, chooser_factory):
     return obs
 
 
+def log_slots(repo, N, trace):
+    """replace the repository's slot queue by one that records every token taken ('A') and put back ('R')"""
+    class LoggingQueue(asyncio.PriorityQueue):
+        async def get(self):
+            item = await super().get()
+            trace.append(['A', item])
+            return item
+
+        def put_nowait(self, item):
+            if self._started:
+                trace.append(['R', item])
+            return super().put_nowait(item)
+    q = LoggingQueue(maxsize=N)
+    q._started = False
+    for slot in range(2, N + 2):
+        q.put_nowait(slot)
+    q._started = True
+    repo._slots = q
+
+
 async def _slots_back(repo, N, obs, phase, gate):
     """after success or failure every slot must come back; calls still in flight (the other workers of
     a failed command keep going until they notice) are let through meanwhile"""
@@ -502,7 +529,8 @@ def check(case, ctx, rep: Report, chooser_factory, tag):
     rep.count('flavour=' + case['flavour'])
     rep.count('fail=' + ('down' if case.get('down_from') is not None else 'none' if case['fail_at'] is None else case['fail_phase']))
     rep.count('rendezvous_met', obs.get('rendezvous_met', 0))
-    rep.traces_validated += 1
+    for tr in obs.get('slot_traces', []):
+        rep.extra.setdefault('_slot_traces', []).append((N, tr, case))
     rep.sample({'case': {k: case[k] for k in ('mn', 'mx', 'N', 'flavour', 'fail_at', 'fail_phase', 'rendezvous', 'mode')},
                 'files': case['files'], 'observed': {k: v for k, v in obs.items() if k != 'problems'}})
     for what, kind in obs['problems']:
@@ -523,6 +551,47 @@ def forced_race_case(k):
     return {'mn': 64, 'mx': 64, 'files': [{'size': 128, 'kind': 'rand'}] * (1 + k % 2), 'content_seed': 1000 + k, 'N': 2,
             'flavour': ['plain', 'async'][k % 2], 'order_seed': k, 'encrypted': bool(k % 3 == 0), 'fail_at': None, 'fail_phase': 'restore',
             'rendezvous': True, 'mode': 'forced-race'}
+
+
+def validate_slot_traces(rep: Report):
+    """the token traces recorded on the real slot queues must be accepted by Model/Sched.slot_trace (vm_compute):
+    every acquisition takes a free token, every release returns a token that is out, at most N are out, all N are back"""
+    traces = rep.extra.pop('_slot_traces', [])
+    if not traces:
+        return
+    per = 120
+    jobs = []
+    for i in range(0, len(traces), per):
+        L = ['From Coq Require Import List Arith.', 'From Replicat Require Import Model.Sched.', 'Import ListNotations.',
+             'Definition cases : list (list nat * list sev) := [']
+        items = []
+        for N, tr, _ in traces[i:i + per]:
+            evs = '; '.join(('EAcq %d' if k == 'A' else 'ERel %d') % t for k, t in tr)
+            items.append('  (%s, [%s])' % (core.coq_nat_list(range(2, N + 2)), evs))
+        L.append(';\n'.join(items))
+        L.append('].')
+        L.append('Eval vm_compute in map (fun c => match slot_trace (fst c) (snd c) 0 0 with Some (f, h, m) => (1, length f, h, m) | None => (0, 0, 0, 0) end) cases.')
+        jobs.append((f'c09_slots_{i // per}', '\n'.join(L) + '\n'))
+    res = core.coq_eval_files(jobs)
+    out = []
+    for name, _ in jobs:
+        rc, text = res[name]
+        if rc != 0:
+            rep.disagreements.append({'what': 'the slot model could not be evaluated: ' + text[-800:], 'replay': None})
+            return
+        out += core.parse_coq_term(core.parse_coq_values(text)[-1])
+    for (N, tr, case), (ok, nfree, held, mx) in zip(traces, out):
+        rep.traces_validated += 1
+        if not ok:
+            rep.disagreements.append({'what': f'a slot trace of the implementation is not a trace of the model (a token taken twice or returned twice): {tr[:12]}...',
+                                      'replay': case})
+        elif held != 0 or nfree != N:
+            rep.violations.append({'what': f'{N - nfree} of {N} connection slots were never returned', 'signature': {'kind': 'slots', 'flavour': case['flavour']},
+                                   'replay': case})
+        elif mx > N:
+            rep.violations.append({'what': f'{mx} slots out at once with concurrency {N}', 'signature': {'kind': 'too_many_outstanding', 'flavour': case['flavour']},
+                                   'replay': case})
+    rep.count('slot_events_validated', sum(len(tr) for _, tr, _ in traces))
 
 
 def _run(ctx, n_random, n_forced, n_perm, rep):
@@ -549,6 +618,7 @@ def _run(ctx, n_random, n_forced, n_perm, rep):
         case = gen_case(ctx.rng)
         r = random.Random(case['order_seed'])
         check(case, ctx, rep, lambda r=r: (lambda n: r.randrange(n)), f'rnd{i}')
+    validate_slot_traces(rep)
 
 
 def run(ctx) -> Report:
